@@ -75,20 +75,20 @@ def settings_req(obj):
 
 
 def s_begin(obj):
-    """Call first thing in __enter__/__exit__; returns a token that is None for nested (super()) calls."""
+    """Call first thing in __enter__/__exit__ (also of subclasses that change further fields before
+    delegating to super()): remembers what was observable before the outermost call changed anything."""
     k = id(obj)
-    if k in _open:
-        return None
-    _open[k] = settings_state(obj.__class__)
+    if k not in _open:
+        _open[k] = settings_state(obj.__class__)
     return k
 
 
 def s_end(obj, token, ev):
-    """Call last thing in __enter__/__exit__ with the token from s_begin: one event per outermost call,
-    after the change."""
-    if token is None:
+    """Call last thing in __enter__/__exit__: emits one event per outermost call, after all changes (the
+    innermost s_end - the base class's, which runs last - is the one that emits)."""
+    before = _open.pop(token, None)
+    if before is None:
         return
-    before = _open.pop(token)
     cls = obj.__class__
     emit(ev, cls=cls.__module__.split(".")[0] + "." + cls.__name__, obj=oid(obj), before=before,
          after=settings_state(cls), req=settings_req(obj))
